@@ -94,6 +94,13 @@ Theorem C19_fuel : forall content, parse_sig4 (length content) content <> Err "f
 Proof. exact parse_sig4_fuel. Qed.
 Print Assumptions C19_fuel.
 
+(* likewise the fuel of the partial-body-length reader: from [length r] units on, the result
+   does not depend on the fuel (packet_read supplies exactly [length r]) *)
+Theorem C19_fuel_partial : forall f1 f2 chunk r,
+  (length r <= f1)%nat -> (length r <= f2)%nat -> partial_body f1 chunk r = partial_body f2 chunk r.
+Proof. exact partial_body_fuel. Qed.
+Print Assumptions C19_fuel_partial.
+
 (* the unrepaired code refutes C19_no_failure: F24 (NAME of type INT32; string entry of count 0)
    and F36 (string array running past the store); the repaired code describes / rejects them *)
 Theorem C19_no_failure_refuted_F24 :
